@@ -59,7 +59,7 @@ Definition obs_reading (o : sobs) : list N := concat (map fo_data (o_files o)).
 Definition opkind (x : xop) : N :=
   match x with
   | XOp (Write _ _ _ _ _ _ _ _) => 1 | XOp (Reopen _) => 2 | XOp (ExtRename _) => 3 | XOp (Pause _) => 4
-  | XRmDir _ => 5 | XRmActive _ => 6 | XAppend _ _ _ => 8
+  | XRmDir _ => 5 | XRmActive _ => 6 | XAppend _ _ _ => 8 | XUnformatted _ => 9
   end%N.
 
 (* An event whose formatted value is empty has no bytes: it is acknowledged, it makes the sink open and rotate like any other
@@ -121,7 +121,7 @@ Section Case.
      else if tsOnly c || negb (rotateEnabled c) then (if sink_call && negb removed && negb has_plain then [KActive] else [])
      else (if has_plain then [KActive] else [])) ++
     (if existsb (fun f => N.eqb (fo_kind f) 9) (o_files ob) then [KStray] else []) ++
-    (if (maxBytes c <=? 0) && (maxDur c <=? 0) &&
+    (if (maxBytes c <=? 0) && (maxDur c =? 0) &&      (* MaxDuration < 0 never rotates, yet gives stamped names: rotateEnabled *)
         N.ltb nren (N.of_nat (length (filter (fun f => N.eqb (fo_kind f) 1) (o_files ob)))) then [KNoRot] else []).
 
   Definition nonempty {A} (l : list A) : bool := match l with [] => false | _ => true end.
@@ -136,7 +136,7 @@ Section Case.
         let '(w', ok, _) := xstep3 c w x in
         let o := xop_clock x in
         let nren' := match x with XOp (ExtRename _) => N.succ nren | _ => nren end in
-        let removed' := match x with XOp _ => removed | _ => true end in
+        let removed' := match x with XOp _ | XUnformatted _ => removed | _ => true end in
         let dirgone' := match x with XRmDir _ => true | _ => dirgone end in
         match ob with
         | None =>
